@@ -76,6 +76,55 @@ theorem reads_subscribed (env : Env) (e : Expr) : ∀ l ∈ (eval true env e).re
       · exact covered_append _ _ _ ihe ihk
     · exact ihe
 
+/-- **Fresh**: if another environment `env'` has the same parameters and the same value at every location whose
+subscription is in the list returned by the evaluation on `env`, then evaluating on `env'` gives the identical result
+— the same value or the same error class, the same subscription list, the same read log.  A template is notified
+whenever a subscribed location changes; so as long as it is *not* notified, re-evaluating could not give anything else:
+it cannot be stale.  (Holds for every expression incl. attribute and subscript access, and on error paths.) -/
+theorem fresh (env env' : Env) (e : Expr) (h : Agree env env' (eval true env e).subs) :
+    eval true env' e = eval true env e := fresh_eval env env' e h
+
+/-- **Evaluates like Python**: in both modes (`sub` = evaluate / evaluate_and_subscribe) and for every expression and
+environment, the evaluator's outcome is the outcome of Python's semantics with all `and`/`or` operands evaluated
+(`py false`), seen through MPF's error mapping `ofPy`/`mapErr`: Python's value unchanged; the template default exactly
+when Python raises `TypeError`, when a name is missing (plain `evaluate`) or when an attribute is read from a falsy
+parent (subscribing); a rejection (`crash`) for every other exception; `unmodelled` passed through.  The operator
+semantics (`applyBin` …) are shared by both sides and validated against CPython by the correspondence run. -/
+theorem eval_is_python (sub : Bool) (env : Env) (e : Expr) : (eval sub env e).out = ofPy sub (py false env e) :=
+  eval_out sub env e
+
+/-- the documented deviation, exactly: whenever evaluating all `and`/`or` operands succeeds, Python's short-circuit
+evaluation (`py true`) yields the same value — the two can only differ by an error in an operand Python would skip -/
+theorem all_operands_agree_with_short_circuit (env : Env) (e : Expr) (v : Val) (h : py false env e = .ok v) :
+    py true env e = .ok v := strict_to_lazy env e v h
+
+/-- corollary: a value computed by the evaluator is Python's (short-circuit) value of the expression -/
+theorem value_is_pythons (sub : Bool) (env : Env) (e : Expr) (v : Val) (h : (eval sub env e).out = .ok v) :
+    py true env e = .ok v := by
+  apply strict_to_lazy
+  rw [eval_is_python] at h
+  cases hp : py false env e with
+  | ok w => rw [hp] at h; simp only [ofPy] at h; rw [Out.ok.inj h]
+  | error x => rw [hp] at h; cases x <;> cases sub <;> simp [ofPy, mapErr] at h
+
+/-- non-vacuity of `fresh`: `machine.b` differs between the environments but is not subscribed (the test is false) -/
+example : Agree { vars := [(("machine", ["c"]), .int 0), (("machine", ["b"]), .int 1)] }
+      { vars := [(("machine", ["c"]), .int 0), (("machine", ["b"]), .int 2)] }
+      (eval true { vars := [(("machine", ["c"]), .int 0), (("machine", ["b"]), .int 1)] }
+        (.ite (.attr (.name "machine") "c") (.attr (.name "machine") "b") (.const (.int 5)))).subs := by
+  refine ⟨rfl, ?_⟩
+  intro l hl
+  have : l = ("machine", ["c"]) := by
+    simp [eval, access, roots, depth, Env.read, findVar, truthy] at hl
+    exact hl
+  subst this
+  decide
+
+/-- non-vacuity of the deviation: strict evaluation fails where Python short-circuits -/
+example : py false {} (.boolop "And" (.const (.bool false)) (.bin "Add" (.const (.int 1)) (.const (.str "x")))) = .error .typeError ∧
+    py true {} (.boolop "And" (.const (.bool false)) (.bin "Add" (.const (.int 1)) (.const (.str "x")))) = .ok (.bool false) := by
+  constructor <;> rfl
+
 /-- non-vacuity: a concrete evaluation reads two locations, both subscribed, also when the taken branch fails -/
 example : (eval true { vars := [(("machine", ["b"]), .int 1)] }
     (.ite (.attr (.name "machine") "b") (.bin "Add" (.attr (.name "machine") "a") (.const (.str "x"))) (.const (.int 5)))).reads
